@@ -149,9 +149,14 @@ func (d *Dynamic) Draw(ctx vxfw.DrawContext) (vxfw.Surface, error) {
 		if err != nil {
 			return s, err
 		}
-		// Get the last child so we can set our accumulated height
-		last := s.Children[len(s.Children)-1]
-		ah = last.Origin.Row + int(last.Surface.Size.Height)
+		if len(s.Children) > 0 {
+			// Get the last child so we can set our accumulated height
+			last := s.Children[len(s.Children)-1]
+			ah = last.Origin.Row + int(last.Surface.Size.Height)
+		} else {
+			// There was nothing above us (the list shrank)
+			ah = 0
+		}
 	}
 
 	var colOffset int
@@ -231,7 +236,7 @@ func (d *Dynamic) Draw(ctx vxfw.DrawContext) (vxfw.Surface, error) {
 		idx := d.cursor - d.scroll.top
 
 		// If our cursor is within the list, we draw a cursor next to it
-		if int(idx) < len(s.Children) {
+		if d.cursor >= d.scroll.top && int(idx) < len(s.Children) {
 			ch := s.Children[idx]
 			// Create a surface for the cursor
 			cur := vxfw.NewSurface(ctx.Max.Width, ch.Surface.Size.Height, ch.Surface.Widget)
@@ -261,7 +266,7 @@ func (d *Dynamic) Draw(ctx vxfw.DrawContext) (vxfw.Surface, error) {
 	if d.scroll.wantsCursor {
 		idx := d.cursor - d.scroll.top
 		// Guaranteed we have drawn enough children from above
-		if int(idx) < len(s.Children) {
+		if d.cursor >= d.scroll.top && int(idx) < len(s.Children) {
 			ch := s.Children[idx]
 
 			// Define the bottom row
